@@ -428,7 +428,7 @@ class Gen:
         rng = self.rng
         names = sorted(self.all_names)
         last = getattr(self, 'last_query', None)
-        if last is not None and rng.random() < 0.45:
+        if last is not None and rng.random() < 0.45 and not getattr(self, 'force_crowd', False):
             # the very same buffer is asked again (an editor re-queries an unchanged file after
             # the project changed underneath it): same text, same path, same positions
             import json as _json
@@ -440,6 +440,9 @@ class Gen:
         b = world.gen_probe_buffer(rng, names, max_probes=rng.randint(3, 7))
         op = {'op': 'query', 'code': b.text, 'path': None if rng.random() < 0.4 else 'probe_buf.py',
               'project': self.project, 'probes': b.probes}
+        if rng.random() < 0.12 or getattr(self, 'force_crowd', False):
+            # many tabs showing this text are open while it is asked about, and closed together
+            op['crowd'] = rng.randint(11, 16)
         self.last_query = op
         # the project-wide file scan (get_references, rename, Project.search) reads files on its own
         tops_now = [d for d in self.mods if '.' not in d and self.mods[d]['kind'] != 'namespace']
@@ -521,6 +524,26 @@ def gen_case(seed, tier, i):
     max_ops = 10 if tier == 'quick' else 25
     n_mut = rng.randint(2, max_ops)
     g.query()
+    if rng.random() < 0.05:
+        # "tab storm": rounds of (a module is rewritten, many Scripts on the same text are alive at once
+        # and discarded together) - what is left behind by Scripts that were finalised in one large
+        # batch meets objects that are created at the same addresses later
+        g.force_crowd = True
+        tops_now = [d for d in g.mods if '.' not in d and g.mods[d]['kind'] == 'module']
+        for _ in range(rng.randint(8, 12)):
+            if tops_now and rng.random() < 0.8:
+                m = rng.choice(tops_now)
+                g.overwrite(m, rng.random() < 0.3)
+                g.advance(rng.choice([MS, 20 * MS, SEC, 4 * SEC]))
+                # every tab looks at the module that has just been rewritten
+                g.ops.append({'op': 'query', 'code': 'import %s\n%s.\n%s.func(\n' % (m, m, m), 'path': 'probe_buf.py',
+                              'project': g.project, 'crowd': rng.randint(11, 16),
+                              'probes': [{'m': 'complete', 'l': 2, 'c': len(m) + 1},
+                                         {'m': 'get_signatures', 'l': 3, 'c': len(m) + 6}]})
+            else:
+                g.query()
+        g.force_crowd = False
+        n_mut = min(n_mut, 3)
     for _ in range(n_mut):
         r = rng.random()
         if r < 0.55:
@@ -815,6 +838,9 @@ def judge(case):
                     problems.append(('script', {'op': i, 'got': res['script'], 'oracle': ores['script']}))
                     continue
                 pairs = list(zip(op['probes'], res['probes'], ores['probes']))
+                for got_j, want_j in zip(res.get('crowd') or [], ores.get('crowd') or []):
+                    pairs += list(zip(op['probes'][:2], got_j, want_j))
+                    stats['crowd_scripts'] += 1
             else:
                 pairs = [({'m': 'project_search', 'q': op['q']}, res, ores)]
             for p, a, b in pairs:
